@@ -103,6 +103,106 @@ return 1
 			NParams: map[string]int{"§_F0": 0, "§_Nop": 0},
 		},
 		{
+			Kind:    "corpus",
+			Note:    "package-level initialisers with inlined calls whose arguments call functions: _initialize needs the maximum number of temporaries",
+			Imports: inlineImport,
+			Plain: `func ¶_two() int {
+return 2
+}
+func ¶_three() int {
+return 3
+}
+var g¶_a = inline.Sum(¶_two(), ¶_three())
+var g¶_b = inline.SumSquared(¶_two(), 1)
+var g¶_c = inline.NoArgsReturn1()
+func §_F0(x int) int {
+return g¶_a*100 + g¶_b*10 + g¶_c + x
+}
+`,
+			Entries: []*Entry{{Name: "§_F0", Params: []Kind{KInt}, Ret: KInt, Tuples: ints(0, 7)}},
+			NParams: map[string]int{"§_F0": 1, "¶_two": 0, "¶_three": 0},
+		},
+		{
+			Kind: "corpus", HasDeploy: true,
+			Note: "multi-file package: _deploy in the first file, defer/recover in the second",
+			Files: []string{`var g¶_v = 40
+func _deploy(data any, isUpdate bool) {
+g¶_v = g¶_v + 1
+}
+`, `func ¶_rec() {
+if r := recover(); r != nil {
+g¶_v += 4
+}
+}
+func ¶_f(x int) int {
+defer ¶_rec()
+if x > 0 {
+panic("boom")
+}
+return 1
+}
+func §_F0(x int) int {
+y := ¶_f(x)
+return y + g¶_v
+}
+`},
+			ResetP:  "g¶_v = 40\n",
+			Entries: []*Entry{{Name: "§_F0", Params: []Kind{KInt}, Ret: KInt, Tuples: ints(0, 1)}},
+			NParams: map[string]int{"§_F0": 1, "¶_f": 1, "¶_rec": 0, "_deploy": 2},
+		},
+		{
+			Kind: "corpus", HasDeploy: true,
+			Note: "multi-file package: defer/recover in the first file, _deploy in the second",
+			Files: []string{`var g¶_v = 40
+func ¶_rec() {
+if r := recover(); r != nil {
+g¶_v += 4
+}
+}
+func ¶_f(x int) int {
+defer ¶_rec()
+if x > 0 {
+panic("boom")
+}
+return 1
+}
+`, `func _deploy(data any, isUpdate bool) {
+g¶_v = g¶_v + 1
+}
+func §_F0(x int) int {
+y := ¶_f(x)
+return y + g¶_v
+}
+`},
+			ResetP:  "g¶_v = 40\n",
+			Entries: []*Entry{{Name: "§_F0", Params: []Kind{KInt}, Ret: KInt, Tuples: ints(0, 1)}},
+			NParams: map[string]int{"§_F0": 1, "¶_f": 1, "¶_rec": 0, "_deploy": 2},
+		},
+		{
+			Kind: "corpus", Key: "inline-steals-label", Imports: inlineImport,
+			Note: "the label of a labeled switch is taken after init/tag are walked: an inlined helper with a loop in the tag consumes it",
+			Plain: `func §_F0(x int) int {
+r := 0
+for i := 0; i < 2; i++ {
+L:
+switch inline.VarSum(x, 1, 2) {
+case 3:
+if i == 0 {
+break L
+}
+r += 10
+default:
+r += 100
+}
+r++
+}
+return r
+}
+`,
+			Entries: []*Entry{{Name: "§_F0", Params: []Kind{KInt}, Ret: KInt, Tuples: ints(0, 1)}},
+			NParams: map[string]int{"§_F0": 1},
+		},
+		{
 			Kind: "corpus", Key: "recover-stale-stack",
 			Note: "a panic recovered by a deferred call while operands are on the evaluation stack leaves them there",
 			Plain: `func ¶_rec() {
